@@ -42,6 +42,9 @@ enum PStep {
     CGet,
     /// cset (list read last + own unique id) with this version
     CSet(VersionArg),
+    /// cset of exactly the value read last with the version read last: nothing to append, but the
+    /// version must still go up by one
+    CSetSame,
     PlainSet,
     Delete,
 }
@@ -128,6 +131,32 @@ async fn run_schedule(programs: &[Vec<PStep>], schedule: &[usize], key: &str, ob
                     obs.csets_rejected += 1;
                 }
             }
+            PStep::CSetSame => {
+                let version = last_read[c].1;
+                let value = Value::Array(last_read[c].0.clone());
+                let got = res(wb.cset(key.to_owned(), value.clone(), version, client_id(c), false).await);
+                let exp = match m.cset(key, &value, version, who) {
+                    Expect::Ok(_) => Expect::Ok(()),
+                    Expect::Err(e) => Expect::Err(e),
+                    Expect::Either(_, e) => Expect::Either((), e),
+                };
+                if let Some(d) = mismatch(&what, &exp, &got) {
+                    return Some(d);
+                }
+                if got.is_ok() {
+                    obs.csets_accepted += 1;
+                    obs.same_value_csets_accepted += 1;
+                    if !obs.resets_seen && last_read[c].0 != acked {
+                        return Some(format!("{what}: accepted although the client had not read the latest value: rewrote {:?} over {acked:?}", last_read[c].0));
+                    }
+                    acked = last_read[c].0.clone();
+                    // the event of a value-preserving write repeats the previous list: the chain check below
+                    // expects an extension, so the chain is re-based here
+                    obs.chain_rebased = true;
+                } else {
+                    obs.csets_rejected += 1;
+                }
+            }
             PStep::PlainSet => {
                 uid += 1;
                 let value = json!([format!("plain-c{c}-{uid}")]);
@@ -175,6 +204,7 @@ async fn run_schedule(programs: &[Vec<PStep>], schedule: &[usize], key: &str, ob
                     if let Some(prev) = &chain
                         && !obs.resets_seen
                         && !(list.len() == prev.len() + 1 && list[..prev.len()] == prev[..])
+                        && !(obs.chain_rebased && list == *prev)
                     {
                         return Some(format!("{what}: event {list:?} does not extend the previous event {prev:?} by exactly one update"));
                     }
@@ -202,6 +232,8 @@ struct CoreObs {
     plain_sets_refused: u64,
     events: u64,
     resets_seen: bool,
+    same_value_csets_accepted: u64,
+    chain_rebased: bool,
     deleted_since: Vec<bool>,
 }
 
@@ -564,6 +596,10 @@ pub fn run(ctx: &Ctx) -> Evidence {
             vec![PStep::CGet, PStep::CSet(VersionArg::Read), PStep::CSet(VersionArg::Stale), PStep::CGet, PStep::CSet(VersionArg::Future), PStep::CSet(VersionArg::Read)],
             vec![PStep::CGet, PStep::CSet(VersionArg::Max), PStep::CSet(VersionArg::Read), PStep::CGet, PStep::CSet(VersionArg::Read)],
         ]),
+        ("value-preserving csets", vec![
+            vec![PStep::CGet, PStep::CSet(VersionArg::Read), PStep::CGet, PStep::CSetSame, PStep::CGet, PStep::CSet(VersionArg::Read)],
+            vec![PStep::CGet, PStep::CSetSame, PStep::CGet, PStep::CSet(VersionArg::Read), PStep::CSetSame],
+        ]),
         ("plain set and delete mixed in", vec![
             cycle(2),
             vec![PStep::PlainSet, PStep::CGet, PStep::CSet(VersionArg::Read), PStep::PlainSet, PStep::Delete],
@@ -598,6 +634,7 @@ pub fn run(ctx: &Ctx) -> Evidence {
                         ev.count("core_csets_rejected", obs.csets_rejected);
                         ev.count("core_plain_sets_refused_over_cas", obs.plain_sets_refused);
                         ev.count("core_subscription_events", obs.events);
+                        ev.count("core_value_preserving_csets_accepted", obs.same_value_csets_accepted);
                         if let Some(d) = diff {
                             ev.violation(
                                 format!("C02 interleaving: {}", d.chars().take(120).collect::<String>()),
